@@ -28,6 +28,8 @@ TEXT = {
          "only functions under contract are covered; evidence.public_fn_coverage lists the public functions under Verus contract, exercised by Kani only, and not covered"),
  "C12": ("Verus verifies sqrt, exp, pow, powi, ln, log2, sin, cos as written, generic over all supported types, against trait-level contracts (no panic-class obligation left; conventions as postconditions); Kani proves sin/cos/tan/sqrt/log2/ln/exp total on I9F23 (whole domain) and sin/cos/exp on wider types for the stated ranges",
          "trait-level contracts and conversion/comparison axioms assumed (listed); log2_inner and cordic_rotation (iterator adapters) and tan: Kani per instantiated type"),
+ "C13": ("Verus verifies the real generic sqrt, for every supported pair of types, against the integer bracket (r - 4)^2 <= X * 2^F <= (r + 4)^2 (|r - sqrt x| <= 4 ulp), exactness at 0 and 1, non-negativity, and Err only for negative operands / unrepresentable reciprocals: the Newton loop carries the invariant that the distance to the integer square root at least halves per step, the reciprocal path a nonlinear bracket lemma; all lemmas machine-checked, no admit",
+         "trait-level contracts of Fixed and the conversion / comparison axioms are assumed here (proved in other units / by Kani); holds for the tree with the trip-count fix 164c3b4 (known_findings.json) - the pre-fix loop count fails the final-step obligation; Kani twins are bounded grids"),
  "C17": ("Verus: a ghost iteration counter (R14) in sqrt, exp and sin, generic over every supported type, with `assert(vticks <= 4*w+64)` at every exit and `decreases bound - vticks` on while/loop; Kani asserts the hook iteration counter <= 4*width+64 after every call (whole domain on I9F23, I32F32 in thorough)",
          "counter hook lines in transcendental.rs (guarded); log2_inner / cordic_rotation counted by Kani per type only; the sin range-reduction defect was fixed"),
  "C10": ("Kani runs the real parity-scale-codec derive for one alias per family over all bit patterns: encode == to_le_bytes == encoding of the bits, max_encoded_len, decode round trip, short input fails, byte views inverse",
@@ -36,7 +38,6 @@ TEXT = {
          "Sum/Product, from_str* forwarders and next_power_of_two: Kani 8-bit only; #[repr(transparent)] layout axiom; uninterpreted (deterministic-only) contracts for bit counting / rotate / wrapping_div_euclid*"),
 }
 NA = {
- "C13": "the 4-ulp bound needs a quantitative Newton-convergence proof over the reals' integer shadow for every layout; with the fixed trip count it does not even hold for wide-integer layouts (DESIGN.md §11.3/§11.5), and no contract within reach separates the layouts where it holds; the decidable by-products (result >= 0, Err only for negative operands, l >= sqrt(x) invariant) are proved under C12",
  "C14": "oracle is log2/ln of a real number: no contract in Verus (no real analysis) or CBMC can express it (DESIGN.md §6)",
  "C15": "the accuracy clauses need e^x and x^y over the reals (not expressible in either back end); the decidable conventions 0^y = 0, x^0 = 1, x^1 = x of pow / powi are postconditions proved under C12; the (|n|+1)-ulp clause of powi was not brought under contract",
  "C16": "oracle is sin/cos/tan of a real number: not expressible in either back end (DESIGN.md §6)",
